@@ -135,7 +135,7 @@ def main(rep, tier, only):
             else:
                 rep.ok("W-words", wid, site, text, how="compiles")
     try:
-        db = load.load(tier, lib=False, drivers=["drv_containers"])
+        db = load.load(tier, lib=False, drivers=["drv_containers"], tests=False)
     except P.AnalysisBroken as e:
         if rep.viol:
             # the driver instantiates members (underlying_value of a one-word field) that become ill-formed when the
